@@ -83,6 +83,9 @@ P = {
  "C21": ("model_checking", "Commands.tla (documented grammar as a generator, with the request each line denotes and near-misses that denote rejection) enumerated by TLC; every row parsed by the real sierradb-server command parsers; every sierradb-client emitter captured and parsed the same way",
          "TLC enumerates ~14,400 command lines of EAPPEND, EMAPPEND, ESUB, EPSUB, ESCAN, EPSCAN, EGET, ESVER, EPSEQ, EACK (positional arguments, every subset and order of optional clauses, keyword case, boundary numbers, multi-stream / multi-partition forms, near-misses) each with its denotation, and checks the grammar's own invariant (a keyword never denotes a positional value); each row is framed as RESP3 and parsed with <Command>::parser().skip(eof()), the result compared field by field with the denotation; all CmdExt builders and SubscriptionManager::subscribe_* functions are invoked, their emitted arguments captured (loopback endpoint for the manager) and parsed the same way.",
          "Blob-string framing; the EPSUB partition-key form is compared up to the partition id, which is resolved at handling time (C22 exercises it).", "5/C21", "h-resp"),
+ "C22": ("model_checking", "Api.tla (RESP commands as actions over the reference event store, with the prescribed reply of every command and what every subscription owes) model-checked by TLC; simulated command histories sent as raw RESP3 over TCP to a real single-node server and every reply / pushed message compared",
+         "TLC checks the API model's own properties for every command over small bounds (AppendReplyMatchesLog, PagingComplete, FlagsConsistent, WindowBound, store invariants) and generates 45-command histories (EAPPEND / EMAPPEND with right and wrong expectations, key conflicts, boundary timestamps; EGET; ESCAN / EPSCAN with boundary starts, ends and counts; ESVER; EPSEQ; ESUB / EPSUB in every selector and FROM form with windows; EACK; 40 kinds of invalid request; strict and lax versioning). Each history runs against a real Database + ClusterActor + Server over a TCP connection in the dev profile (overflow checks on) under three storage variants; replies are compared field by field, subscription pushes with what is owed per unit in order, and the connection must stay usable.",
+         "Single node, replication factor 1, one connection; has_more over-reporting on a non-empty last page is tolerated (counted); reads through a key of another partition of the same bucket are outside the domain.", "5/C22", "h-resp"),
 }
 
 NOT_YET = "not yet built in this session (planned: see DESIGN.md section 5); no claim is made"
@@ -96,8 +99,8 @@ ENGINES = [
   "kind_free_text": "Rust harness linked against /repo/crates/sierradb: EventStore/Durability behaviour replay on a real Database, read oracle, crash-image enumeration, schedule control through cfg-gated hooks"},
  {"name": "h-cluster", "path": "harness/h-cluster", "serves_properties": ["C07", "C08", "C09", "C10", "C11", "C12", "C26"],
   "kind_free_text": "Rust harness linked against /repo/crates/sierradb-cluster: schedule replay on the circuit breaker, confirmation/watermark replay, replicator replay, read gating, subscriptions, virtual cluster"},
- {"name": "h-resp", "path": "harness/h-resp", "serves_properties": ["C21"],
-  "kind_free_text": "Rust harness linked against /repo/crates/sierradb-server and sierradb-client: Commands.tla rows through the real combine parsers, client emitters captured on a loopback RESP endpoint"},
+ {"name": "h-resp", "path": "harness/h-resp", "serves_properties": ["C21", "C22"],
+  "kind_free_text": "Rust harness linked against /repo/crates/sierradb-server and sierradb-client: Commands.tla rows through the real combine parsers, client emitters captured on a loopback RESP endpoint; Api.tla histories replayed over TCP on a real single-node server"},
  {"name": "tlc", "path": "spec", "serves_properties": sorted(P.keys()),
   "kind_free_text": "TLA+ specifications checked with TLC 1.8 (exhaustive + simulation), behaviours/tables exported as JSON"},
 ]
